@@ -1,4 +1,5 @@
 import NunVerif.Proofs.WireParse
+import NunVerif.Props.C04Format
 import NunVerif.Props.C07
 /-!
 # C07 — the lines of an election read back as what they were printed from
@@ -72,5 +73,11 @@ theorem parse_setSecoundaryLine (name : Bytes) (hsp : 32 ∉ name) (hnl : 10 ∉
   simp only [hcmd, if_false]
   unfold parseArgs
   simp (decide := true) only [List.getElem?_cons_zero, List.getElem?_cons_succ, Option.getD_some, if_false, if_true, noNl, dropByte_id 10 name hnl]
+
+/-! ### the candidacy line is the line the source prints (`Gen/Wire.lean`, interpreted) -/
+
+theorem C07_candidate_line_is_generated (pid : Nat) (name : Bytes) :
+    armFmt 2 [Bytes.ofNat pid, name] = some (candidateLine pid name) := by
+  unfold armFmt; rw [C04_wire_arm_formats]; simp [fmtWith, candidateLine]
 
 end Nun
